@@ -5,7 +5,7 @@ import vlib
 from props import c19
 
 INVS = ("ExactDelivery RefusedNeverSent BufferEmptyAfterFlush FanOutComplete WithinLimit OversizeRefused FittingAccepted "
-        "FlushOkWhenHealthy BufferEmptyAfterDiscard NotOpenAfterClose CloseIdempotent NeverPanics")
+        "FlushOkWhenHealthy BufferEmptyAfterDiscard NotOpenAfterClose CloseIdempotent UseAfterCloseNotOpen SecondCloseOk NeverPanics")
 
 
 def cfg(work, name, invariants=None, **ov):
